@@ -17,29 +17,30 @@ structure Sim (beh : Nat → Outcome) (a b : N) : Prop where
 /-- the cached twin would answer from the cache now -/
 def N.hits (n : N) : Bool := n.cached == some n.inp && (!n.running && n.ready)
 
-theorem runLike_sim (k : Bool) (beh : Nat → Outcome) (a b : N) (e : Bool) (h : Sim beh a b)
+set_option maxHeartbeats 1600000 in
+theorem runLike_sim (k al : Bool) (beh : Nat → Outcome) (a b : N) (e : Bool) (h : Sim beh a b)
     (hmiss : e = true → a.hits = false) :
-    Sim beh (runLike (Cfg.commit k) beh true a e).1 (runLike (Cfg.commit k) beh false b e).1 ∧
-    (runLike (Cfg.commit k) beh true a e).2 = (runLike (Cfg.commit k) beh false b e).2 := by
+    Sim beh (runLike (Cfg.commit k al) beh true a e).1 (runLike (Cfg.commit k al) beh false b e).1 ∧
+    (runLike (Cfg.commit k al) beh true a e).2 = (runLike (Cfg.commit k al) beh false b e).2 := by
   obtain ⟨hi, ho, hr, hf, hj, hnz, hv⟩ := h
   obtain ⟨ai, ao, ar, af, ac, aj⟩ := a
   obtain ⟨bi, bo, br, bf, bc, bj⟩ := b
   simp only at hi ho hr hf hj hnz hv
   subst hi ho hr hf hj
   simp only [N.hits, N.ready] at hmiss
-  by_cases hz : ai = 0 <;> cases ar <;> cases af <;> cases e <;> cases hb : beh ai <;> cases ac <;>
+  by_cases hz : ai = 0 <;> cases al <;> cases ar <;> cases af <;> cases e <;> cases hb : beh ai <;> cases ac <;>
     simp_all [runLike, Cfg.commit, N.ready, N.succeed, N.fail] <;>
     (try split) <;>
     (try (first | refine ⟨⟨?_, ?_, ?_, ?_, ?_, ?_, ?_⟩, ?_⟩ | refine ⟨?_, ?_, ?_, ?_, ?_, ?_, ?_⟩)) <;>
     (try simp_all) <;> (try grind)
 
-theorem step_sim (k : Bool) (beh : Nat → Outcome) (a b : N) (op : Op) (h : Sim beh a b)
+theorem step_sim (k al : Bool) (beh : Nat → Outcome) (a b : N) (op : Op) (h : Sim beh a b)
     (hmiss : op = .submit → a.hits = false) :
-    Sim beh (step (Cfg.commit k) beh true a op).1 (step (Cfg.commit k) beh false b op).1 ∧
-    (step (Cfg.commit k) beh true a op).2 = (step (Cfg.commit k) beh false b op).2 := by
+    Sim beh (step (Cfg.commit k al) beh true a op).1 (step (Cfg.commit k al) beh false b op).1 ∧
+    (step (Cfg.commit k al) beh true a op).2 = (step (Cfg.commit k al) beh false b op).2 := by
   cases op with
-  | run => exact runLike_sim k beh a b false h (by simp)
-  | submit => exact runLike_sim k beh a b true h (fun _ => hmiss rfl)
+  | run => exact runLike_sim k al beh a b false h (by simp)
+  | submit => exact runLike_sim k al beh a b true h (fun _ => hmiss rfl)
   | _ =>
     obtain ⟨hi, ho, hr, hf, hj, hnz, hv⟩ := h
     obtain ⟨ai, ao, ar, af, ac, aj⟩ := a
@@ -52,7 +53,7 @@ theorem step_sim (k : Bool) (beh : Nat → Outcome) (a b : N) (op : Op) (h : Sim
       | (cases aj with
          | nil => simp_all [step]; refine ⟨?_, ?_, ?_, ?_, ?_, ?_, ?_⟩ <;> simp_all
          | cons v js =>
-           cases k <;> cases hb : beh v <;> simp_all [step, Cfg.commit, N.succeed, N.fail] <;>
+           cases k <;> cases al <;> cases hb : beh v <;> simp_all [step, Cfg.commit, N.succeed, N.fail] <;>
              (try (refine ⟨?_, ?_, ?_, ?_, ?_, ?_, ?_⟩)) <;> (try simp_all) <;> (try grind)))
 
 theorem init_sim (beh : Nat → Outcome) : Sim beh N.init N.init := by
@@ -80,24 +81,24 @@ theorem NoSubmitHit.cons {cfg beh a o os} (h : NoSubmitHit cfg beh a (o :: os)) 
 
 /-- for EVERY such history the cached node and its uncached twin return the same things and end in
 the same visible state -/
-theorem runOps_sim (k : Bool) (beh : Nat → Outcome) (ops : List Op) (a b : N) (h : Sim beh a b)
-    (hok : NoSubmitHit (Cfg.commit k) beh a ops) :
-    (runOps (Cfg.commit k) beh true a ops).2 = (runOps (Cfg.commit k) beh false b ops).2 ∧
-    Sim beh (runOps (Cfg.commit k) beh true a ops).1 (runOps (Cfg.commit k) beh false b ops).1 := by
+theorem runOps_sim (k al : Bool) (beh : Nat → Outcome) (ops : List Op) (a b : N) (h : Sim beh a b)
+    (hok : NoSubmitHit (Cfg.commit k al) beh a ops) :
+    (runOps (Cfg.commit k al) beh true a ops).2 = (runOps (Cfg.commit k al) beh false b ops).2 ∧
+    Sim beh (runOps (Cfg.commit k al) beh true a ops).1 (runOps (Cfg.commit k al) beh false b ops).1 := by
   induction ops generalizing a b with
   | nil => exact ⟨rfl, h⟩
   | cons o os ih =>
-    obtain ⟨hs, hr⟩ := step_sim k beh a b o h hok.cons.1
+    obtain ⟨hs, hr⟩ := step_sim k al beh a b o h hok.cons.1
     obtain ⟨ih1, ih2⟩ := ih _ _ hs hok.cons.2
     simp only [runOps]
     exact ⟨by rw [hr, ih1], ih2⟩
 
 /-- a `submit` answered from the cache equals, on the uncached twin, the submission followed by the
 completion of that job (when nothing else is queued): same outputs, same visible state -/
-theorem submit_hit_settles (k : Bool) (beh : Nat → Outcome) (a b : N) (h : Sim beh a b) (hhit : a.hits = true)
+theorem submit_hit_settles (k al : Bool) (beh : Nat → Outcome) (a b : N) (h : Sim beh a b) (hhit : a.hits = true)
     (hq : a.jobs = []) :
-    let a' := (step (Cfg.commit k) beh true a .submit)
-    let b' := (step (Cfg.commit k) beh false (step (Cfg.commit k) beh false b .submit).1 .complete).1
+    let a' := (step (Cfg.commit k al) beh true a .submit)
+    let b' := (step (Cfg.commit k al) beh false (step (Cfg.commit k al) beh false b .submit).1 .complete).1
     Sim beh a'.1 b' ∧ a'.2 = .ret b'.out := by
   obtain ⟨hi, ho, hr, hf, hj, hnz, hv⟩ := h
   obtain ⟨ai, ao, ar, af, ac, aj⟩ := a
